@@ -595,3 +595,42 @@ def pipe_max(a, t):
         if k == "take" and len(t) == 5 and t[4][0] == "I":
             return t[4][1]
     return None
+
+
+def reachable_panics(a):
+    """Ways a body can panic on a normal (non-cleanup) path, as far as they can be told: compiler-inserted checks and explicit panics whose
+    failing condition is not contradicted by the facts they are reached under, and std calls whose documented panic condition is not excluded
+    (split_at: mid <= len; Option / Result unwrap / expect: the right variant; slice indexing by a number: index < len). -> list of strings"""
+    from .poly import prove as _prove, Poly as _Pl
+    out = []
+    for x in getattr(a, "asserts", []):
+        if not x["cleanup"] and not _prove((">=", _Pl.const(-1)), a.poly_facts(x["fail_facts"])):
+            out.append("check `%s` can fail" % (x["msg"] or "assert")[:60])
+    for c in a.calls:
+        if a.blocks[c.bb]["cleanup"]:
+            continue
+        pf = a.poly_facts(c.facts)
+        if _prove((">=", _Pl.const(-1)), pf):
+            continue   # the call itself is unreachable
+        fn = c.fn
+        if fn.startswith("core::panicking::"):
+            out.append("%s reachable at %s" % (fn.split("::")[-1], c.at))
+        elif fn in ("core::slice::<impl [T]>::split_at", "core::slice::<impl [T]>::split_at_mut") and len(c.args) == 2:
+            p, mid = c.args[0], a.as_poly(c.args[1])
+            if not (p[0] == "P" and p[3] is not None and mid is not None and _prove((">=", p[3] - mid), pf)):
+                out.append("%s(mid) with mid <= len not shown (it panics otherwise) at %s" % (fn.split("::")[-1], c.at))
+        elif fn in ("core::option::Option::<T>::unwrap", "core::option::Option::<T>::expect", "core::result::Result::<T, E>::unwrap", "core::result::Result::<T, E>::expect"):
+            want = 1 if "Option" in fn else 0
+            v = c.args[0]
+            known = any(f[0] == "variant" and f[1] == v and f[2] == want for f in c.facts) or (v[0] == "A" and isinstance(v[1], tuple) and v[1][0] == "adt" and v[1][2] == want)
+            if not known:
+                out.append("%s on a value not known to be %s at %s" % (fn.split("::")[-1], "Some" if want else "Ok", c.at))
+        elif fn in ("core::ops::Index::index", "core::ops::IndexMut::index_mut") and len(c.args) == 2 and c.args[1][0] == "I":
+            p = c.args[0]
+            if not (p[0] == "P" and p[3] is not None and _prove((">=", p[3] - c.args[1][1] - 1), pf)):
+                out.append("indexing with index < len not shown at %s" % (c.at,))
+        elif fn in ("core::slice::<impl [T]>::copy_from_slice", "core::slice::<impl [T]>::clone_from_slice") and len(c.args) == 2:
+            p, q = c.args[0], c.args[1]
+            if not (p[0] == "P" and q[0] == "P" and p[3] is not None and q[3] is not None and _prove(("==", p[3] - q[3]), pf)):
+                out.append("%s with equal lengths not shown at %s" % (fn.split("::")[-1], c.at))
+    return sorted(set(out))
